@@ -217,7 +217,7 @@ func checkC10(c *Ctx) {
 			continue
 		}
 		var inner *ssa.Call
-		for _, cl := range Calls(fn) {
+		for _, cl := range CallsDeep(fn) {
 			if (IsCallTo(cl, t.inner) || IsCallTo(cl, "(go.uber.org/zap/zapcore.WriteSyncer).Write")) && cl.Common().IsInvoke() && cl.Common().Method.Name() == t.m {
 				inner, _ = cl.(*ssa.Call)
 			}
@@ -226,13 +226,13 @@ func checkC10(c *Ctx) {
 			c.Bad("R10.4", fn.String(), "visits-all", fn.Pos(), "no delegating call")
 			continue
 		}
-		ok, over, why := LoopVisitsAll(fn, inner)
+		ok, over, why := LoopVisitsAll(inner.Parent(), inner)
 		c.Check(ok, "R10.4", fn.String(), "visits-all", inner.Pos(), "every element of %s is visited whatever the earlier ones returned %s", over, why)
 		// errors folded
 		if t.typ == "CheckedEntry" {
-			c10Fold(c, fn, inner, false)
+			c13ErrFold(c, inner.Parent(), inner, inner, "R10.4", fn.String()+"/fold")
 		} else {
-			c13ErrFold(c, fn, inner, inner, "R10.4", fn.String())
+			c13ErrFold(c, inner.Parent(), inner, inner, "R10.4", fn.String())
 		}
 	}
 	// hooked.Write runs all hooks and folds errors
@@ -255,20 +255,48 @@ func checkC10(c *Ctx) {
 	// CheckedEntry.Write reports the aggregate
 	cw := c.Method(CorePath, "CheckedEntry", "Write")
 	if cw != nil {
-		var report *ssa.Call
-		for _, cl := range Calls(cw) {
-			if IsCallTo(cl, "fmt.Fprintf") {
-				if s, ok := ConstString(cl.Common().Args[1]); ok && strings.Contains(s, "write error") {
-					report, _ = cl.(*ssa.Call)
+		rc := cw.Params[0].Name()
+		// atoms that test the aggregate error against nil
+		aggAtoms := map[string]bool{}
+		for _, f := range Region(cw) {
+			for _, b := range f.Blocks {
+				if iff, ok := b.Instrs[len(b.Instrs)-1].(*ssa.If); ok {
+					if bo, isB := iff.Cond.(*ssa.BinOp); isB && IsNilConst(bo.Y) && carriesAppend(bo.X, 0) {
+						aggAtoms[atomStringRaw(Atom{iff.Cond, bo.Op == token.NEQ})] = true
+					}
 				}
 			}
 		}
-		ok := report != nil
-		if ok {
-			atoms := AtomStrings(Guards(report))
-			ok = containsS(atoms, "φerr != nil") && containsS(atoms, "ce.ErrorOutput != nil") && Desc(report.Call.Args[0]) == "ce.ErrorOutput"
+		// a report: something printed to the entry's ErrorOutput under {aggregate != nil, ErrorOutput != nil} and nothing else
+		ok := false
+		var seenConds [][]string
+		for _, cl := range CallsDeep(cw) {
+			if !IsCallTo(cl, "fmt.Fprintf", "fmt.Fprintln", "fmt.Fprint") {
+				continue
+			}
+			var dst string
+			Bound(func() { dst = Desc(cl.Common().Args[0]) })
+			if !strings.HasSuffix(dst, ".ErrorOutput") {
+				continue
+			}
+			for _, conj := range PathConds(cl.Block()) {
+				hasAgg, clean := false, true
+				for _, a := range conj {
+					switch {
+					case aggAtoms[a]:
+						hasAgg = true
+					case strings.HasSuffix(a, ".ErrorOutput != nil"), a == rc+" != nil", a == "!"+rc+".dirty", strings.Contains(a, "rangeindex"), strings.Contains(a, "len("):
+					default:
+						clean = false
+					}
+				}
+				seenConds = append(seenConds, conj)
+				if hasAgg && clean && containsSuffix(conj, ".ErrorOutput != nil") {
+					ok = true
+				}
+			}
 		}
-		c.Check(ok, "R10.4", cw.String(), "aggregate-reported", cw.Pos(), "a non-nil aggregate error is printed to the entry's ErrorOutput when one is set")
+		c.Check(ok && len(aggAtoms) > 0, "R10.4", cw.String(), "aggregate-reported", cw.Pos(), "a non-nil aggregate error is printed to the entry's ErrorOutput when one is set, under no further condition (report path conditions seen: %v)", firstConds(seenConds, 3))
 		panics := 0
 		AllInstrs(cw, func(i ssa.Instruction) {
 			if _, isP := i.(*ssa.Panic); isP {
@@ -322,4 +350,49 @@ func checkC10(c *Ctx) {
 // c10Fold: CheckedEntry.Write folds each core's error into err with multierr.Append.
 func c10Fold(c *Ctx, fn *ssa.Function, inner *ssa.Call, _ bool) {
 	c13ErrFold(c, fn, inner, inner, "R10.4", fn.String()+"/fold")
+}
+
+// carriesAppend: v is (or an eligible helper returns) the accumulator fed by multierr.Append.
+func carriesAppend(v ssa.Value, depth int) bool {
+	if depth > 4 {
+		return false
+	}
+	switch x := Strip(v).(type) {
+	case *ssa.Phi:
+		for _, e := range x.Edges {
+			if carriesAppend(e, depth+1) {
+				return true
+			}
+		}
+	case *ssa.Call:
+		if IsCallTo(x, "go.uber.org/multierr.Append") {
+			return true
+		}
+		if h := helperOf(x); h != nil {
+			for _, r := range Returns(h) {
+				for _, rv := range RetVals(r) {
+					if carriesAppend(rv, depth+1) {
+						return true
+					}
+				}
+			}
+		}
+	}
+	return false
+}
+
+func containsSuffix(l []string, suf string) bool {
+	for _, x := range l {
+		if strings.HasSuffix(x, suf) {
+			return true
+		}
+	}
+	return false
+}
+
+func firstConds(c [][]string, n int) [][]string {
+	if len(c) > n {
+		return c[:n]
+	}
+	return c
 }
